@@ -257,6 +257,9 @@ func c07GenTracked(tier string, rng *rand.Rand, emit func(Case)) {
 			emit(Case{Line: l, Kind: "datatype-sweep"})
 		}
 	}
+	// a message that ends inside a package (the truncated attempt must leave nothing behind), then complete
+	// messages in small packets (c02.go)
+	brokenThenNextGen(tier, rng, emit)
 	// the channel's side of the condition: how the receive loop classifies the parser's answer. A sample
 	// of the encodings of every kind travels through the real Channel.WritePacket, cut inside the package
 	// (`rx` lines of C02): the truncated attempt must leave no trace (no channel error, no delivery), and
@@ -421,8 +424,10 @@ func c10Gen(tier string, rng *rand.Rand, emit func(Case)) {
 					l := fmt.Sprintf("pkg dec %s %s %s", hx(e.bytes[:1]), e.ctx, hx(m))
 					emit(Case{Line: l, Kind: "hostile-length:" + e.kind})
 					// allocation probe in a process of its own: a sample in the quick tier
+					// (chunked BLOB data is the one place where the reader collects data sets of announced lengths
+					// in a loop: every hostile length there is probed)
 					nHostile++
-					if nHostile%memEvery == 0 {
+					if nHostile%memEvery == 0 || ffIsBlobCase("pkg spec "+e.kind+" "+e.fields) {
 						emit(Case{Line: "mem " + l, Kind: "alloc-probe"})
 					}
 				}
